@@ -385,6 +385,10 @@ func normalizeHeaderValue(ov, ob []byte, headerLength int) (nv, nb []byte, nhl i
 		} else {
 			lineStart = false
 		}
+		if len(nv) == 0 && (c == ' ' || c == '\t') {
+			// a value that starts on the continuation line: its leading whitespace is no part of it
+			continue
+		}
 		nv = append(nv, c)
 	}
 
